@@ -90,6 +90,34 @@ def nearest_offsets(facts, fname):
                         base_ok = True
                 except Exception:      # noqa: BLE001 - some other floor(..): not the base sub-index
                     pass
+    # every test on the sub-index must be one of the two canonical wraps *if it can be taken*: with offsets o the sub-index ranges over
+    # [min o, factor - 1 + max o], so `B < c` is live iff min o < c and `B <= c` iff min o <= c (a dead branch may say anything).  A live
+    # `B <= 0` sends sub-index 0 to `factor`, one past the table.
+    live_ok = True
+    if offs is not None and pairs:
+        for x in walk(fn["body"]):
+            if x.get("k") != "if":
+                continue
+            c = x["c"]
+            for A, B in pairs:
+                if not (c.get("k") == "bin" and is_path(c["l"], B)):
+                    continue
+                ups = {(y["l"]["p"], y["op"], nbit(y["r"])) for y in walk(x["then"]) if y.get("k") == "opassign" and is_path(y["l"])}
+                if c["op"] in ("<", "<=") and c["r"].get("k") in ("lit", "un"):
+                    try:
+                        cval = int(show(c["r"]).replace("-(", "-").replace(")", "").replace("(", ""))
+                    except ValueError:
+                        live_ok = False
+                        continue
+                    live = min(offs) < cval if c["op"] == "<" else min(offs) <= cval
+                    if live and not (c["op"] == "<" and cval == 0 and ups == {(B, "+", fac), (A, "-", "i:1")}):
+                        live_ok = False
+                elif c["op"] in (">=", ">"):
+                    if max(offs) >= 1 and not (c["op"] == ">=" and is_path(c["r"], fac) and ups == {(B, "-", fac), (A, "+", "i:1")}):
+                        live_ok = False
+                else:
+                    live_ok = False
+    base_ok = base_ok and live_ok
     # base index: every value the index variable starts from is floor(t) (directly, or through an immutable local)
     idx_ok = bool(pairs)
     for A, _ in pairs:
